@@ -280,6 +280,10 @@ def compare(eng, st, op, a, b, node):
             yield st, SBool(z3.Not(r.z) if neg else r.z)
         return
     if isinstance(op, (ast.Lt, ast.LtE, ast.Gt, ast.GtE)):
+        if isinstance(a, SBool):
+            a = SInt(z3.If(a.z, 1, 0))
+        if isinstance(b, SBool):
+            b = SInt(z3.If(b.z, 1, 0))
         num = (int, Fraction, SInt, SReal, bool)
         if isinstance(a, num) and isinstance(b, num):
             f = {ast.Lt: lambda x, y: x < y, ast.LtE: lambda x, y: x <= y,
@@ -823,7 +827,7 @@ def construct(eng, st, cls, args, kwargs, node):
     if issubclass(cls, BaseException):
         yield st, ExcVal(cls, tuple(args), "")
         return
-    if issubclass(cls, tuple) and hasattr(cls, "_fields"):  # namedtuple
+    if issubclass(cls, tuple) and hasattr(cls, "_fields") and cls not in eng.class_models:  # namedtuple
         fields = dict(zip(cls._fields, args))
         fields.update(kwargs)
         yield st, Struct(cls, fields)
@@ -1327,8 +1331,12 @@ def _int(eng, st, args, kw, node):
             # truncation toward zero
             yield s, SInt(z3.If(v.z >= 0, z3.ToInt(v.z), -z3.ToInt(-v.z)))
         elif isinstance(v, FloatVal):
-            r = rnd(v.exact.z)
-            eng.uses_rnd = True
+            x = v.exact.z
+            r = rnd(x)
+            # IEEE double rounding of the exact quotient: relative error at most 2**-53 (ground instance of the axiom)
+            eps = z3.RealVal(1) / z3.RealVal(2 ** 53)
+            ax = z3.If(x >= 0, x, -x)
+            s.assume(r - x <= eps * ax, x - r <= eps * ax)
             yield s, SInt(z3.If(r >= 0, z3.ToInt(r), -z3.ToInt(-r)))
         else:
             raise Unsupported(f"int({v!r})")
@@ -1387,8 +1395,12 @@ def _fraction(eng, st, args, kw, node):
             elif isinstance(v, SBool):
                 yield s, SReal(z3.If(v.z, z3.RealVal(1), z3.RealVal(0)))
             elif isinstance(v, FloatVal):
-                eng.uses_rnd = True
-                yield s, SReal(rnd(v.exact.z))
+                x = v.exact.z
+                r = rnd(x)
+                eps = z3.RealVal(1) / z3.RealVal(2 ** 53)
+                ax = z3.If(x >= 0, x, -x)
+                s.assume(r - x <= eps * ax, x - r <= eps * ax)
+                yield s, SReal(r)
             elif isinstance(v, float):
                 if v != v or v in (float("inf"), float("-inf")):
                     yield s, ExcVal(OverflowError if v == v else ValueError, (), eng.where(s, node))
